@@ -379,6 +379,63 @@ def _guarded(fn, seconds):
         signal.setitimer(signal.ITIMER_REAL, 0)
 
 
+def _watch_guards(run, inp):
+    """run() with the memo cache watched (diagnosis only).  Returns (result of run(), need, cap):
+    need = the largest number of distinct other keys written to the memo cache between the planting of a guard entry
+    (set_left_recursion_guard) and a later lookup of the same key while that activation of the rule has no outcome
+    yet - a cache `perlinememos * linecount` entries wide (= cap, for the default setting of the tree under test)
+    can push the guard out only when need >= cap;
+    None when the engine does not have the three methods any more."""
+    try:
+        from tatsu.config import ParserConfig
+        from tatsu.contexts.core import ParserCore
+        from tatsu.contexts.engine import ParserEngine
+        from tatsu.exceptions import FailedLeftRecursion
+        o_memo, o_memoize = ParserCore.__dict__['memo'], ParserCore.__dict__['memoize']
+        o_guard = ParserEngine.__dict__['set_left_recursion_guard']
+        cap = int(max(1.0, ParserConfig().perlinememos) * max(1, len(inp.splitlines())))
+    except Exception:  # noqa: BLE001
+        return run(), None, None
+    writes = []
+    planted = {}     # key -> write indices of the guards of its activations without an outcome yet
+    state = {'need': 0, 'planting': False}
+
+    def kid(key):
+        return (key.pos, key.ruleinfo.name)
+
+    def memoize(self, key, memo):
+        r = o_memoize(self, key, memo)
+        if self._memos.get(key) is memo:
+            writes.append(kid(key))
+            if state['planting']:
+                planted.setdefault(kid(key), []).append(len(writes))
+            elif planted.get(kid(key)):
+                planted[kid(key)].pop()     # the activation that planted the entry has its outcome now
+        return r
+
+    def guard(self, key):
+        state['planting'] = True
+        try:
+            return o_guard(self, key)
+        finally:
+            state['planting'] = False
+
+    def memo(self, key):
+        r = o_memo(self, key)
+        k = kid(key)
+        if planted.get(k):
+            # the rule is looked up again at a position where it is still active (whether or not the entry survived)
+            state['need'] = max(state['need'], len(set(writes[planted[k][-1]:]) - {k}))
+        return r
+
+    ParserCore.memo, ParserCore.memoize, ParserEngine.set_left_recursion_guard = memo, memoize, guard
+    try:
+        res = run()
+    finally:
+        ParserCore.memo, ParserCore.memoize, ParserEngine.set_left_recursion_guard = o_memo, o_memoize, o_guard
+    return res, state['need'], cap
+
+
 def flags(rules):
     return [[bool(r.is_lrec), bool(r.is_memo), bool(r.memoizable)] for r in rules]
 
@@ -450,7 +507,25 @@ def work(job):
         r = _guarded(run, 10)
         outs.append(r[1] if r[0] == 'ok' else r[0] if r[0] != 'error' else 'error:' + r[1])
         if r[0] in ('recursion', 'timeout'):
-            break       # one unbounded run is the verdict for this grammar; the rest of the battery is skipped
+            # one unbounded run is the verdict for this grammar; the rest of the battery is skipped.
+            # Diagnosis (classification only, never a verdict): the same input with the parser settings that keep
+            # the run-time guard entries alive - a memo cache that never evicts / cuts that do not prune memos.
+            diag = {}
+            for label, kw in (('bigcache', {'perlinememos': 10 ** 6}), ('nocutprune', {'prune_memos_on_cut': False}),
+                              ('both', {'perlinememos': 10 ** 6, 'prune_memos_on_cut': False})):
+                def rerun(inp=inp, kw=kw):
+                    try:
+                        m.parse(inp, **kw)
+                        return 'ok'
+                    except FailedParse:
+                        return 'fail'
+                if label == 'bigcache':
+                    d, diag['need'], diag['cap'] = _watch_guards(lambda rerun=rerun: _guarded(rerun, 10), inp)
+                else:
+                    d = _guarded(rerun, 10)
+                diag[label] = d[1] if d[0] == 'ok' else d[0] if d[0] != 'error' else 'error:' + d[1]
+            obs['diag'] = diag
+            break
     obs['parse'] = outs
     return obs
 
@@ -555,6 +630,143 @@ def battery(toks, quick):
     return out
 
 
+# ------------------------------------------------------------------ S6: what runs between entry and re-entry
+# The run-time protection of a rule is an entry that is planted when the rule is entered at a position (the
+# FailedLeftRecursion memo of set_left_recursion_guard for memoizable rules, the seed in _results for leaders) and
+# that has to be still there when the rule is reached again at that position.  This stream builds rules that reach
+# themselves at the same position - visibly (a detected left call) or behind a call to a rule that matches empty
+# (invisible to the analysis: the guard entry is the only protection) - and puts in front of the re-entry the
+# things that touch the caches while the parser comes back to the same position: cuts inside lookaheads / groups /
+# optionals / closures / called rules, calls of left-recursive leaders (clear_recursion_errors), rows of memoized
+# rule calls (the memo cache is bounded), and combinations of them.
+LETTERS = 'abcdefghijklmnopqrstuvwxyz'
+EMPTY_BODIES = [lambda: ('opt', ('tok', 'y')),
+                lambda: ('clo', ('tok', 'y')),
+                lambda: ('void',),
+                lambda: ('choice', [('tok', 'y'), ('void',)]),
+                lambda: ('seq', [('opt', ('tok', 'y')), ('opt', ('tok', 'y'))]),
+                lambda: ('nlook', ('tok', 'q')),
+                lambda: ('pat', 'y*')]
+
+
+def reentry_grammar(rng):
+    """-> (rules, info); rule 0 is the start rule and lies on the (visible or hidden) cycle"""
+    rules = [None]
+
+    def alloc(body):
+        rules.append(body)
+        return len(rules) - 1
+
+    def zed():
+        return rng.choice([('tok', 'z'), ('tok', 'z'), ('pat', 'z'), ('group', ('tok', 'z'))])
+
+    kinds = []
+
+    def cut_body():
+        # something that executes a cut after moving past the start position (or not), then comes to an end
+        k = rng.randrange(6)
+        if k == 0:
+            return ('seq', [zed(), ('cut',)])
+        if k == 1:
+            return ('seq', [zed(), ('cut',), ('opt', ('tok', 'x'))])
+        if k == 2:
+            return ('seq', [('cut',), zed()])
+        if k == 3:
+            return ('group', ('seq', [zed(), ('cut',)]))
+        if k == 4:
+            return ('seq', [zed(), ('opt', ('tok', 'x')), ('cut',)])
+        return ('choice', [('seq', [('tok', 'y'), ('cut',)]), ('seq', [zed(), ('cut',)])])
+
+    def disturber():
+        """a list of sequence elements that leave the parser where it was"""
+        k = rng.randrange(12)
+        if k <= 2:
+            kinds.append('cut-in-lookahead')
+            return [('look', cut_body())]
+        if k == 3:
+            kinds.append('cut-in-negative-lookahead')
+            return [('nlook', ('seq', [zed(), ('cut',), ('tok', 'q')]))]
+        if k == 4:
+            kinds.append('cut-in-lookahead-optional')
+            return [('look', (rng.choice(['opt', 'clo']), ('seq', [zed(), ('cut',)])))]
+        if k == 5:
+            kinds.append('cut-in-skipped-optional')
+            return [(rng.choice(['opt', 'clo']), ('seq', [('tok', 'q'), ('cut',)]))]
+        if k == 6:
+            kinds.append('bare-cut')
+            return [('cut',)]
+        if k == 7:
+            kinds.append('cut-in-called-rule')
+            c = alloc(cut_body())
+            return [('look', ('call', c))]
+        if k == 8:
+            kinds.append('leader-in-lookahead')
+            li = alloc(None)
+            rules[li] = ('choice', [('seq', [('call', li), ('tok', 'x')]), zed()])
+            return [('look', ('call', li))]
+        if k == 9:
+            kinds.append('leader-with-cut-in-lookahead')
+            li = alloc(None)
+            rules[li] = ('choice', [('seq', [('call', li), ('cut',), ('tok', 'x')]), ('seq', [zed(), ('cut',)])])
+            return [('look', ('call', li))]
+        kinds.append('memo-row')
+        cnt = rng.choice([1, 2, 3, 5, 6, 7, 8, 9, 12])
+        kinds.append(f'memo-row-{"short" if cnt < 7 else "long"}')
+        out = []
+        for _ in range(cnt):
+            r = alloc(rng.choice([zed(), ('opt', zed()), ('seq', [zed(), ('opt', ('tok', 'x'))])]))
+            out.append(('look', ('call', r)))
+        return out
+
+    hidden = rng.random() < 0.7
+    two = rng.random() < 0.35
+    empties = [alloc(rng.choice(EMPTY_BODIES)()) for _ in range(rng.choice([1, 1, 2]))] if hidden else []
+    second = alloc(None) if two else None
+
+    def prefix(nd):
+        out = []
+        for _ in range(nd):
+            out += disturber()
+        return out
+
+    def hidden_calls():
+        return [('call', rng.choice(empties)) for _ in range(rng.choice([1, 1, 2]))] if hidden else []
+
+    def tail():
+        return rng.choice([[], [('tok', 'x')], [('tok', 'x')], [('opt', ('tok', 'x'))]])
+
+    def base():
+        return rng.choice([zed(), ('pat', 'z+'), ('seq', [zed(), ('opt', ('tok', 'x'))])])
+
+    def recur(target):
+        return rng.choice([('call', target)] * 4 + [('opt', ('call', target)), ('group', ('call', target))])
+
+    nd = rng.choice([0, 1, 1, 1, 2, 2, 3])
+    if two:
+        nd0 = rng.randint(0, nd)
+        first = prefix(nd0) + hidden_calls() + [recur(second)] + tail()
+        rules[second] = ('choice', [('seq', prefix(nd - nd0) + hidden_calls() + [recur(0)] + tail()), base()])
+    else:
+        first = prefix(nd) + hidden_calls() + [recur(0)] + tail()
+    alts = [('seq', first) if len(first) > 1 else first[0], base()]
+    if rng.random() < 0.2:
+        alts.reverse()
+    rules[0] = ('choice', alts)
+    kinds.append('hidden' if hidden else 'visible')
+    kinds.append('two-rule-cycle' if two else 'self-cycle')
+    return rules, sorted(set(kinds))
+
+
+def reentry_inputs():
+    toks = ['z', 'y', 'x']
+    out = ['']
+    for k in (1, 2):
+        out += [' '.join(c) for c in itertools.product(toks, repeat=k)]
+    out += [' '.join(c) for c in list(itertools.product(toks, repeat=3))[::4]]
+    out.append('z x x x')
+    return out
+
+
 def make_jobs(chk: Check):
     rng = chk.rng
     jobs = []   # (stream, rules, names, inputs, nomemo)
@@ -612,6 +824,18 @@ def make_jobs(chk: Check):
                 mask |= 1 << b
         add('random:larger-digraphs', digraph_grammar(n, mask, 'random', rng, nonedges=True), random_names(rng, n),
             nomemo=[rng.random() < 0.2 for _ in range(n)])
+    # S6: cycles (visible or hidden behind a rule that matches empty) with cache-touching elements between the
+    # entry of a rule and its re-entry at the same position
+    inputs_g = reentry_inputs()
+    for _ in range(260 if chk.quick else 1500):
+        rules, kinds = reentry_grammar(rng)
+        n = len(rules)
+        names = [LETTERS[i] if i < len(LETTERS) else f'r{i}' for i in range(n)]
+        if rng.random() < 0.5:
+            rng.shuffle(names)
+        for kd in kinds:
+            chk.count('reentry.' + kd)
+        add('guard:between-entry-and-reentry', rules, names, inputs_g)
     return jobs
 
 
@@ -650,7 +874,10 @@ def main():
                 'elements exhaustive; 2 rules with one sequence of <=2 elements exhaustive in thorough (sampled in quick); '
                 'every digraph over 2 rules (6 edge forms) and over 3 rules as left-call graph (512, exhaustive in both '
                 'tiers); sampled 3-rule bodies, random edge forms, permuted names, no_memo flags; random grammars with 2-7 '
-                'rules. Each compiled, compiled with @@left_recursion :: False, optimized, and parsed on all token strings '
+                'rules; rules that reach themselves at the same position, visibly or behind a call to a rule that matches '
+                'empty, with cuts inside lookaheads/optionals/closures/called rules, calls of left-recursive leaders and '
+                'rows of 1-12 memoized rule calls between the entry and the re-entry (inputs: all strings of <=2 of 3 '
+                'tokens and some of 3-4). Each compiled, compiled with @@left_recursion :: False, optimized, and parsed on all token strings '
                 'up to length 3 (+ one of length 6) under a recursion/timeout watchdog. Non-trivial: the grammar has at '
                 'least one left call; distinct by grammar text.')
     chk.trusted += ['the translator tr() in c16.py from compiled grammar nodes to model expressions (class table tied to '
@@ -827,9 +1054,28 @@ def main():
                     # a cycle that exists only when calls to rules that can match empty are looked through
                     # (outside the guard of the exactness claim), running through unguarded rules
                     cause = 'hidden-cycle-via-nullable-call'
+                else:
+                    # every rule is a leader or memoizable, so every re-entry should have met the entry planted when
+                    # the rule was entered.  Which parser setting brings the protection back tells what removed it.
+                    diag = o.get('diag', {})
+                    hidden_memo = has_cycle_within(true_graph, [i for i, ri in enumerate(o['ri_opt']) if ri[1]]) \
+                        and on_cycle(true_graph) != on_cycle([sorted(set(r)) for r in mo['graph']])
+                    if diag.get('bigcache') in ('ok', 'fail'):
+                        if diag.get('need') is None:
+                            cause = 'protection-evicted-from-memo-cache:unwatched'
+                        elif diag['need'] < diag['cap']:
+                            # fewer writes than the cache holds: the bound itself cannot have pushed the guard out
+                            cause = 'protection-lost-below-the-memo-bound'
+                        else:
+                            cause = 'hidden-cycle-guard-evicted' if hidden_memo else 'protection-evicted-from-memo-cache'
+                    elif diag.get('nocutprune') in ('ok', 'fail'):
+                        cause = 'protection-pruned-by-cut'
+                    elif diag.get('both') in ('ok', 'fail'):
+                        cause = 'protection-evicted-and-pruned-by-cut'
             inp = inputs[outs.index(worst)]
             chk.violation(f'lrec:unbounded-{worst}:{cause}', f'parse({inp!r}) ended in {worst}: the parser recursed without bound',
-                          dict(replay, input=inp, outcomes=dict(zip(inputs, outs)), marks=o.get('flags_opt')))
+                          dict(replay, input=inp, outcomes=dict(zip(inputs, outs)), marks=o.get('flags_opt'),
+                               reruns=o.get('diag')))
         if any(r.startswith('error') for r in outs):
             kinds = sorted({r for r in outs if r.startswith('error')})
             chk.violation('runtime:' + '+'.join(kinds), 'parse raised something other than FailedParse', dict(replay, outcomes=outs))
